@@ -143,6 +143,7 @@ type decFlags struct {
 	opts                                   []decode.DecodeOption
 	optsJ                                  []interface{}
 	rect                                   image.Rectangle
+	vecAlways                              bool // run the raster/vec route whatever the numbers are
 }
 
 func hashCall(h uint32, c *Call) uint32 {
@@ -264,7 +265,25 @@ func traceDecode(w *Writer, id string, src0 []byte, fl decFlags) (ncalls int, ac
 		}
 		// rendering for real: a Renderer whose rasteriser samples the paints (raster/vec over an RGBA image) - same
 		// outcome, no panic, whatever the paints are
-		if len(src) <= 1<<14 {
+		// (only graphics whose numbers are tame - finite, at most 2^20 in magnitude, a viewBox at least 2^-10 across - or
+		// the directed non-finite ones: for other magnitudes the fixed-point rasteriser of x/image/vector loops over up
+		// to 2^31 rows, which is the same defect as the known finding but would stall the harness)
+		tame := true
+		for ci := range rec.Calls {
+			for _, f := range rec.Calls[ci].F {
+				v := float64(f.float())
+				if v != v || v > 1<<20 || v < -(1<<20) {
+					tame = false
+				}
+			}
+			if rec.Calls[ci].Op == "Reset" && len(rec.Calls[ci].F) == 4 {
+				fs := rec.Calls[ci].F
+				if !(fs[2].float()-fs[0].float() >= 1.0/1024) || !(fs[3].float()-fs[1].float() >= 1.0/1024) {
+					tame = false
+				}
+			}
+		}
+		if len(src) <= 1<<14 && (tame || fl.vecAlways) {
 			vecPanicSite = ""
 			oz := guarded(func() error {
 				defer func() {
